@@ -552,6 +552,13 @@ func (env *SpecEnv) eval(e ast.Expr) TV {
 		tool("spec: slice expression on %T", base.V)
 	case *ast.CallExpr:
 		return env.evalCall(x)
+	case *ast.CompositeLit:
+		// T{}: the zero value of T
+		if len(x.Elts) == 0 && x.Type != nil {
+			if t := env.resolveType(x.Type); t != nil {
+				return TV{zeroValue(t), t}
+			}
+		}
 	}
 	tool("spec: unsupported expression %s", exprString(e))
 	return TV{}
